@@ -24,6 +24,7 @@ class Harness:
         self.bounds = kv.get("bounds", "")
         self.sym = kv.get("sym", "")
         self.enum = kv.get("enum", "")
+        self.hang = kv.get("hang", "0") == "1"  # an exceeded unwinding bound is a non-termination candidate (replayed natively)
         self.finding = kv.get("finding", "")  # key into known_findings for expect=fail witnesses
         self.kv = kv
 
@@ -50,7 +51,7 @@ def discover(prop=None):
                     if "name" in pend:  # macro-generated harness: name given explicitly
                         h = Harness(module, pend["name"], pend)
                         pend = None
-                        if prop is None or h.prop == prop:
+                        if prop is None or h.prop == prop or prop in h.kv.get("also", "").split(","):
                             out.append(h)
                     continue
                 if pend is not None:
@@ -58,7 +59,7 @@ def discover(prop=None):
                     if m2:
                         h = Harness(module, m2.group(1), pend)
                         pend = None
-                        if prop is None or h.prop == prop:
+                        if prop is None or h.prop == prop or prop in h.kv.get("also", "").split(","):
                             out.append(h)
     return out
 
@@ -154,6 +155,7 @@ def parse(out, res):
         res.failed = real_fail + unwind
     elif unwind:
         res.status = "unwind"
+        res.failed = unwind
     elif "VERIFICATION:- FAILED" in out:
         # failed without an identifiable failing check (e.g. unsupported construct reached, CBMC crash)
         res.status = "error"
